@@ -90,6 +90,14 @@ def rows():
         ("reset unknown", good(reset=["list", [["s", "NOPE"], ["s", "I"]]])),
         ("reset unknown menu", good(reset=["list", [["s", "no-such-menu-1"], ["s", "I"]]])),
         ("reset menu", good(reset=["list", [["s", "menu:M"]]])),
+        # client text that ends up quoted in error messages: console-markup look-alikes must stay inert
+        ("set unknown [/tag]", good(set=["obj", [["NO[/SUCH]", ["b", "y"]], ["I", ["i", "9"]]]])),
+        ("set unknown [tag]", good(set=["obj", [["[bold]NOPE", ["b", "y"]], ["I", ["i", "9"]]]])),
+        ("reset unknown [/]", good(reset=["list", [["s", "[/]"], ["s", "I"]]])),
+        ("reset unknown [/tag]", good(reset=["list", [["s", "menu[/old]-1"], ["s", "I"]]])),
+        ("load missing file [/tag]", good(load=["nofile", 3], set=["obj", [["I", ["i", "9"]]]])),
+        ("save into missing directory [/tag]", good(save=["nofile", 4], set=["obj", [["I", ["i", "9"]]]])),
+        ("set string with markup", good(set=["obj", [["S", ["s", "[/red] x [bold]"]], ["I", ["i", "9"]]]])),
         ("load missing file", good(load=["nofile", 0], set=["obj", [["I", ["i", "9"]]]])),
         ("load directory", good(load=["nofile", 1], set=["obj", [["I", ["i", "9"]]]])),
         ("save into missing directory", good(save=["nofile", 2], set=["obj", [["I", ["i", "9"]]]])),
@@ -151,7 +159,8 @@ def main(run):
     with open(p1) as f:
         f1 = f.read()
     os.makedirs(os.path.join(d, "adir"))
-    nofiles = {0: os.path.join(d, "does-not-exist"), 1: os.path.join(d, "adir"), 2: os.path.join(d, "no-such-dir", "sdkconfig")}
+    nofiles = {0: os.path.join(d, "does-not-exist"), 1: os.path.join(d, "adir"), 2: os.path.join(d, "no-such-dir", "sdkconfig"),
+               3: os.path.join(d, "backup[/old]"), 4: os.path.join(d, "no[/such]dir", "sdkconfig")}
     paths = [p1, pfinal]
     sessions = []
     pre = good(set=["obj", [["S", ["s", "before"]], ["B", ["b", "y"]]]])
